@@ -136,6 +136,19 @@ CHECKS = {
             'the property, and differentially against the same disc with other file bodies.',
             '16-sector geometries excluded as undecidable; identification observed through --verbose/--show-config.',
             'bounded-exhaustive enumeration of marker-imitating discs against a reference recogniser, plus differential runs'),
+    'C18': ('exploration', '4 C18',
+            'Differential on the ASan build: every image (valid of every container incl. two-sided/v3 flux and .gz, plus a '
+            'hostile set) x every command x --verbose / --show-config before and after --file x every --ui spelling; cat on '
+            'a pseudo-terminal for 14 COLUMNS values x --ui; every baseline run executed twice; cat compared by parsed data.',
+            'pty via pty.openpty(); presentation may differ only for cat.',
+            'bounded-exhaustive differential exploration over option sets'),
+    'C19': ('exploration', '4 C19',
+            'Differential between build configurations of the same sources (gcc -O2 with and without NDEBUG): the full '
+            'bbcbasic_to_text command-line matrix, every image x command of C18, the dfs command-line matrix and the '
+            'structural mutations of C07, all inputs of length <=2 and all byte pairs as line bodies in-process; plus the '
+            'NDEBUG builds under MemorySanitizer (C tool) and valgrind (dfs) for initialisation hidden in assert().',
+            'Equality required only when the assertion build does not stop on a failed assertion.',
+            'bounded-exhaustive differential exploration between assertion-enabled and NDEBUG builds'),
 }
 
 NA_REASON = 'check not built yet (work in progress; see DESIGN.md section 4)'
